@@ -596,12 +596,19 @@ pub fn build_p(p: &P) -> BP {
             let mv = intern(metavar);
             macro_rules! mk {
                 ($t:ty, $f:expr) => {{
-                    let a = named(names).argument::<$t>(mv);
-                    if *adjacent {
-                        a.adjacent().map($f).boxed()
+                    // a metavariable ending in `_` asks for the help to be attached AFTER the
+                    // `adjacent` restriction (both orders are legal and must mean the same)
+                    let help_last = metavar.ends_with('_') && names.help.is_some();
+                    let a = if help_last {
+                        let mut bare = names.clone();
+                        bare.help = None;
+                        named(&bare).argument::<$t>(mv)
                     } else {
-                        a.map($f).boxed()
-                    }
+                        named(names).argument::<$t>(mv)
+                    };
+                    let a = if *adjacent { a.adjacent() } else { a };
+                    let a = if help_last { a.help(names.help.as_ref().unwrap().build()) } else { a };
+                    a.map($f).boxed()
                 }};
             }
             match ty {
